@@ -244,8 +244,14 @@ def run(tier, seed, only=None):
     items = [('full-module/variant0', scen.full_module(0), False, timeout_ms), ('gc/all-kinds', c06.gc_module_a(), True, timeout_ms)]
     if tier != 'quick':
         items += [('full-module/variant1', scen.full_module(1), False, timeout_ms), ('gc/mixed', c06.gc_module_c(), True, timeout_ms)]
-    for name, sp in gl:
+    for k, (name, sp) in enumerate(gl):
+        if k % 2:
+            sp.customs = [dict(name=S('pre%d' % j), data=Opaque('bytes:pre%d' % j), place=('start', 'end')[j % 2]) for j in range(1 + k % 3)]      # the probe is then not the first custom section emitted
         items += [(name, sp, False, timeout_ms), (name + '+gc', sp, True, timeout_ms)]
+    # an unknown custom section of the input precedes the probe (every custom section must see the complete map)
+    pre = scen.full_module(0)
+    pre.customs = [dict(name=S('pre0'), data=Opaque('bytes:pre0'), place='start'), dict(name=S('pre1'), data=Opaque('bytes:pre1'), place='end')]
+    items.append(('full-module/variant0+customs', pre, False, timeout_ms))
     items = [i for i in items if not only or i[0] in only]
     pc.run_parallel(ctx, report, run_scenario, items)
     report.bounds = {'generated': gen.bounds_text(tier, len(gl)) + ' x {emit, gc+emit}', 'descriptions': 'full module (every entity kind, imported and local) and the all-kinds GC description; all eight parse-time spaces incl. locals, all seven emit-time spaces'}
